@@ -233,6 +233,11 @@ class Interp:
                     raise NotEvaluable(u(st)[:40])
                 except ZeroDivisionError:
                     raise NotEvaluable("division by zero")
+                if self.tensors and type(cur).__name__ == "ndarray" and type(new).__name__ == "ndarray" and cur.dtype == object \
+                        and new.shape == cur.shape and cur.flags.writeable:
+                    # `t += v` on a tensor is in place: every name bound to the same tensor sees the update
+                    cur[...] = new
+                    new = cur
                 self._store(st.target, new, env)
             elif isinstance(st, ast.If):
                 c = self.eval(st.test, env)
@@ -265,6 +270,11 @@ class Interp:
                     self.call(self.lookup(st.value), st.value, env)
                 elif isinstance(st.value, ast.Call) and call_name(st.value) in self.effects:
                     self.eval(st.value, env)
+                elif self.tensors and isinstance(st.value, ast.Call) and isinstance(st.value.func, ast.Attribute) \
+                        and st.value.func.attr.endswith("_") and not st.value.func.attr.endswith("__") \
+                        and isinstance(st.value.func.value, (ast.Name, ast.Attribute)) and u(st.value.func.value) in env:
+                    # `x.clamp_min_(0)` as a statement: the tensor bound to x is updated in place
+                    env[u(st.value.func.value)] = self.eval(st.value, env)
             elif isinstance(st, ast.Pass):
                 return
             else:
